@@ -7,8 +7,9 @@ Record bucket := { tokens : Z; last : Z }.
 
 Definition hour : Z := 3600000000000.
 
-(* cutoff age used by cleanup(): buckets with lastRefill < now - cleanup_age are deleted *)
-Definition cleanup_age (cfg : lcfg) : Z := hour.
+(* bucketMaxAge(): buckets with lastRefill < now - cleanup_age are deleted by cleanup();
+   at least one hour and at least the time of a complete refill *)
+Definition cleanup_age (cfg : lcfg) : Z := Z.max hour (lmax cfg * lrate cfg).
 
 Record lstate := { lnow : Z; lbuckets : list (Z * option bucket) }.
 
